@@ -216,6 +216,44 @@ impl Snapshot {
         edge_property_from_runs(&self.runs, edge, key)
     }
 
+    /// Keys of `node` whose newest occurrence in the runs is a removal.
+    pub(crate) fn removed_node_property_keys(&self, node: InternalNodeId) -> BTreeSet<String> {
+        let mut resolved = BTreeSet::new();
+        let mut removed = BTreeSet::new();
+        for run in self.runs.iter() {
+            if let Some(keys) = run.tombstoned_node_properties.get(&node) {
+                for key in keys {
+                    if resolved.insert(key.clone()) {
+                        removed.insert(key.clone());
+                    }
+                }
+            }
+            if let Some(props) = run.node_properties(node) {
+                resolved.extend(props.keys().cloned());
+            }
+        }
+        removed
+    }
+
+    /// Keys of `edge` whose newest occurrence in the runs is a removal.
+    pub(crate) fn removed_edge_property_keys(&self, edge: EdgeKey) -> BTreeSet<String> {
+        let mut resolved = BTreeSet::new();
+        let mut removed = BTreeSet::new();
+        for run in self.runs.iter() {
+            if let Some(keys) = run.tombstoned_edge_properties.get(&edge) {
+                for key in keys {
+                    if resolved.insert(key.clone()) {
+                        removed.insert(key.clone());
+                    }
+                }
+            }
+            if let Some(props) = run.edge_properties(edge) {
+                resolved.extend(props.keys().cloned());
+            }
+        }
+        removed
+    }
+
     /// Get all node properties merged from all runs (newest takes precedence).
     pub(crate) fn node_properties(
         &self,
